@@ -229,12 +229,14 @@ class World:
                 raise InjectedSubscriberFailure("subscriber failure injected by script")
 
         if kind == "message":
-            async def sub(hdr, msg):
+            def sub(hdr, msg):
+                # logged when the socket CREATES the callback coroutines (it builds the whole list before it
+                # awaits any): the instant the frame is handed to the subscribers, before any of them reacts
                 try:
                     w.ev("deliver", who=who, hdr=P.project(hdr), msg=P.project(msg))
                 except P.ShapeError as ex:
                     w.ev("deliver", who=who, hdr="shape_error", msg=list(str(ex)[:80].encode("ascii", "replace")))
-                await behave()
+                return behave()
         elif kind == "connection":
             def sub(*, connected):
                 w.ev("notify", who=who, connected=bool(connected))
